@@ -68,6 +68,9 @@ type Case struct {
 	WriteFailAt int     `json:"write_fail"` // -1 = writes work
 	RunIDs      []string `json:"run_ids,omitempty"`
 	Serial      bool     `json:"serial,omitempty"`
+	// ToStep: every Execute is given a signalsToStep channel that the caller never closes (an engine keeps it open
+	// for the lifetime of the step); the client's signal writer goroutines then live until Close
+	ToStep bool `json:"to_step,omitempty"`
 }
 
 type RunSpec struct {
@@ -391,8 +394,16 @@ func workerFn(raw json.RawMessage) json.RawMessage {
 				}
 			}()
 			var r atp.ExecutionResult
+			var toStep chan schema.Input
+			if c.ToStep {
+				toStep = make(chan schema.Input) // never written, never closed
+			}
 			d, pp := within(5*time.Second, func() {
-				r = client.Execute(schema.Input{RunID: run, ID: "do", InputData: atpx.StepConfig("success", "", run)}, nil, signals)
+				if toStep != nil {
+					r = client.Execute(schema.Input{RunID: run, ID: "do", InputData: atpx.StepConfig("success", "", run)}, toStep, signals)
+				} else {
+					r = client.Execute(schema.Input{RunID: run, ID: "do", InputData: atpx.StepConfig("success", "", run)}, nil, signals)
+				}
 			})
 			outcomes[i].Returned, outcomes[i].Panic = d, pp
 			if d && pp == "" {
@@ -501,7 +512,7 @@ func assess(c Case, body json.RawMessage, crash *sup.Crash, restart func()) (str
 			parts = append(parts, fmt.Sprintf("%s[%d..%d) run=%q", f.Kind, total, total+len(f.Bytes), f.Run))
 			total += len(f.Bytes)
 		}
-		return fmt.Sprintf("fault %q at byte %d of a %d-byte transcript (v1=%v, runs %v, write side fails at %d); frames: %s", c.Fault, c.K, total, c.V1, c.RunIDs, c.WriteFailAt, strings.Join(parts, " "))
+		return fmt.Sprintf("fault %q at byte %d of a %d-byte transcript (v1=%v, runs %v, write side fails at %d, open signal channels=%v); frames: %s", c.Fault, c.K, total, c.V1, c.RunIDs, c.WriteFailAt, c.ToStep, strings.Join(parts, " "))
 	}
 	if crash != nil {
 		return fmt.Sprintf("the client process died or hung (%s)\n%s\n%s", crash, firstLines(crash.Log, 30), describe()), crash.Kind
@@ -636,7 +647,7 @@ func TestFaults(t *testing.T) {
 	w := sup.NewWorker("c08")
 	defer w.Close()
 	stride := ev.N(5, 1)
-	ev.Check(t, "faults", 4, 60, func(rt *rapid.T) {
+	ev.Check(t, "faults", 4, 30, func(rt *rapid.T) {
 		var frames []Frame
 		var runIDs []string
 		v1 := rapid.IntRange(0, 4).Draw(rt, "v1") == 0
@@ -684,7 +695,7 @@ func TestFaults(t *testing.T) {
 			rt.Skip("serial v3 sessions are covered by C05/C06")
 		}
 		total := transcriptLen(frames)
-		base := Case{Op: "fault", V1: v1, Frames: frames, K: -1, Fault: "eof", WriteFailAt: -1, RunIDs: runIDs}
+		base := Case{Op: "fault", V1: v1, Frames: frames, K: -1, Fault: "eof", WriteFailAt: -1, RunIDs: runIDs, ToStep: rapid.Bool().Draw(rt, "toStep")}
 		run := func(c Case, label string) {
 			msg, outcome := judge(w, c)
 			inside, pending := pendingAt(frames, c.K, runIDs)
